@@ -439,22 +439,23 @@ func rangeIndex(first, last, code []byte) (index int, ok bool) {
 }
 
 func (f *File) LookupCID(code []byte) CID {
-	for _, s := range f.CIDSingles {
-		if bytes.Equal(s.Code, code) {
-			return s.Value
+	// Look for a mapping in this file and then in its ancestors.  Only if
+	// there is none, the notdef entries apply, again starting with this
+	// file's own (LookupNotdefCID walks the parent chain itself).
+	for g := f; g != nil; g = g.Parent {
+		for _, s := range g.CIDSingles {
+			if bytes.Equal(s.Code, code) {
+				return s.Value
+			}
 		}
-	}
 
-	for _, r := range f.CIDRanges {
-		index, ok := rangeIndex(r.First, r.Last, code)
-		if !ok {
-			continue
+		for _, r := range g.CIDRanges {
+			index, ok := rangeIndex(r.First, r.Last, code)
+			if !ok {
+				continue
+			}
+			return r.Value + CID(index)
 		}
-		return r.Value + CID(index)
-	}
-
-	if f.Parent != nil {
-		return f.Parent.LookupCID(code)
 	}
 
 	return f.LookupNotdefCID(code)
